@@ -210,6 +210,13 @@ func init() {
 		out[0] = ex.st.Bin(OpBAnd, wall, ex.st.Const(64, ^uint64(0x3fffffff)))
 		return out
 	}
+	// context: cancellation is not modelled (sequentialised execution); derived contexts are the parent
+	in["context.WithCancel"] = func(ex *Exec, fn *ssa.Function, args []Value) Value {
+		return Tuple{args[0], NativeFunc(func(ex *Exec, a []Value) Value { return nil })}
+	}
+	in["context.WithTimeout"] = func(ex *Exec, fn *ssa.Function, args []Value) Value {
+		return Tuple{args[0], NativeFunc(func(ex *Exec, a []Value) Value { return nil })}
+	}
 	in["runtime.Gosched"] = nop
 	in["runtime.KeepAlive"] = nop
 	in["runtime.SetFinalizer"] = nop
